@@ -79,6 +79,8 @@ def step (_ : Unit) (j : Json) : Except String (Unit × Drv.Out) := do
     o := o.tag "doc"
     if !eq then o := o.mon "docRoundTrip" "doc.roundtrip" s!"NIP-11 document does not round-trip through JSON: {(fldD j "doc").compress} -> {(fldD out "back").compress}"
     if !served then o := o.mon "docRoundTrip" "doc.served" s!"served NIP-11 document differs from the configuration: {(fldD j "doc").compress}"
+    if fldD out "servedAfterChange" == .bool false then
+      o := o.mon "docRoundTrip" "doc.served-stale" s!"after the configured document was changed (name, description) the answer is not the document as configured now: {(fldD j "doc").compress}"
     pure ((), o)
   | _ => throw s!"unknown op {op}"
 
